@@ -128,7 +128,7 @@ def run(F, rep, tier):
     M2 = model.Model(F, rep, want=("with_capacity", "push_null", "read_push"))
     model.rule_L2(rep, M2)
     from props import C04
-    C04.bracketing_rule(F, reach.Graph(F), rep, M2)
+    C04.structure_rules(F, reach.Graph(F), rep, M2)
     # the declared length written into the header is raw_size's value, computed before anything is written
     b = F.body("io::slippi::ser::write")
     txt = tir.pretty(b["tir"]["value"])
@@ -154,6 +154,12 @@ def run(F, rep, tier):
     rep.ob("junk.not-stored", all(p.startswith("state.game.quirks") or p == "state.game.hash" for p in stored), "io::slippi::de::read", "junk",
            "read() stores data into the game outside the event handlers: %s (trailing bytes after Game End must be discarded; only the doubled-end quirk and the hash are recorded)" % stored,
            sample={"game_fields_written_by_read": stored})
+    # "can be read again ... same metadata": the metadata element the writer emits is in the language the reader accepts,
+    # with byte-counted lengths on both sides (C16's grammar agreement), placed after the raw element under the same keys
+    from props import C16
+    C16.reader_grammar(F, rep)
+    C16.writer_grammar(F, rep)
+    C16.toplevel_rule(F, rep)
     # positive control: the raw_size polynomial must change when a term is dropped
     full = emission.RawSize(F).poly()
     dropped = full - emission.Poly.atom("END") * emission.Poly.atom("DOUBLE") * (emission.Poly.const(1) + emission.Poly.atom("sz[GameEnd]"))
